@@ -40,7 +40,7 @@ pub open spec fn stored_item(value: Seq<u8>, flags: u32, ttl: u32, now: u64, c: 
 
 // C01/C02: set(key, record{value,flags,ttl,cas=req}) on a store without eviction
 pub open spec fn post_set(v0: CView, cas0: u64, now: u64, k: Seq<u8>, value: Seq<u8>, flags: u32, ttl: u32, req_cas: u64,
-                          ok: bool, err_key_exists: bool, acked: u64, v1: CView, cas1: u64) -> bool {
+                          ok: bool, err_key_exists: bool, err_not_found: bool, acked: u64, v1: CView, cas1: u64) -> bool {
     if req_cas == 0 {
         // unconditional store: always succeeds, CAS from the counter (watermark rule)
         &&& ok
@@ -66,7 +66,7 @@ pub open spec fn post_set(v0: CView, cas0: u64, now: u64, k: Seq<u8>, value: Seq
         // and reported; if it fails nothing changes.  The counter is not moved backwards.
         &&& cas1 >= cas0
         &&& (ok ==> acked != 0 && v1 =~= v0.insert(k, stored_item(value, flags, ttl, now, acked)))
-        &&& (!ok ==> v1 =~= v0)
+        &&& (!ok ==> v1 =~= v0 && (err_key_exists || err_not_found))
     }
 }
 
@@ -91,4 +91,25 @@ pub open spec fn post_flush(v0: CView, now: u64, delay: u32, v1: CView) -> bool 
                 &&& (v0[k].ttl != 0 ==> expiry(v1[k]) <= expiry(v0[k]))
             }
     }
+}
+
+// ------------------------------------------------------------------------------------------------
+// C07: counters.  Stored counters are ASCII decimal text.
+// ------------------------------------------------------------------------------------------------
+pub open spec fn is_digit(c: u8) -> bool { 0x30 <= c <= 0x39 }
+pub open spec fn all_digits(s: Seq<u8>) -> bool { s.len() > 0 && forall|i: int| 0 <= i < s.len() ==> is_digit(#[trigger] s[i]) }
+pub open spec fn dec_val(s: Seq<u8>) -> nat decreases s.len() {
+    if s.len() == 0 { 0 } else { dec_val(s.drop_last()) * 10 + (s.last() - 0x30) as nat }
+}
+// "an ASCII decimal u64": digits only (leading zeros allowed), value below 2^64
+pub open spec fn numeric_u64(s: Seq<u8>) -> bool { all_digits(s) && dec_val(s) < 0x1_0000_0000_0000_0000 }
+// Rust's parse::<u64> also accepts one leading '+'; the statement says "ASCII decimal u64", so such texts are
+// left unconstrained (either outcome accepted) - DESIGN §5 (b)
+pub open spec fn plus_numeric(s: Seq<u8>) -> bool { s.len() >= 2 && s[0] == 0x2b && numeric_u64(s.subrange(1, s.len() as int)) }
+// canonical decimal text of n (no leading zeros)
+pub open spec fn dec_text(n: nat) -> Seq<u8> decreases n {
+    if n < 10 { seq![(0x30 + n) as u8] } else { dec_text(n / 10).push((0x30 + n % 10) as u8) }
+}
+pub open spec fn delta_apply(incr: bool, v: u64, d: u64) -> u64 {
+    if incr { ((v as int + d as int) % 0x1_0000_0000_0000_0000) as u64 } else if d > v { 0 } else { (v - d) as u64 }
 }
